@@ -16,9 +16,9 @@ PROP = "C13"
 OPAQUE = re.compile(r"#<(box|mvec|err|proc)>")
 
 CFGS = {
-    "quick": ["MC_Hygiene_quick.cfg", "MC_Hygiene_match_quick.cfg"],
+    "quick": ["MC_Hygiene_quick.cfg", "MC_Hygiene_match_quick.cfg", "MC_Hygiene_intf_quick.cfg"],
     "thorough": ["MC_Hygiene.cfg", "MC_Hygiene_nest.cfg", "MC_Hygiene_match.cfg", "MC_Hygiene_match3.cfg",
-                 "MC_Hygiene_pairs.cfg"],
+                 "MC_Hygiene_pairs.cfg", "MC_Hygiene_intf.cfg"],
 }
 # contexts / placements the fixed quick configuration leaves out; the seed picks one combination
 QUICK_EXTRA_CTX = ["lambda", "letrec", "nlet", "ifn"]
@@ -37,11 +37,12 @@ CONSTANTS
   VALS = {{"num", "fn"}}
   NEST = FALSE
   PAIRS = FALSE
+  INTF = {{}}
   PATLEN = 0
   INLEN = 0
   ELEMKINDS = {{}}
   INKINDS = {{}}
-INVARIANTS InDomain SynErrSilent GlobalsSuffixed HEmit
+INVARIANTS InDomain SynErrSilent GlobalsSuffixed IntfConsistent HEmit
 CHECK_DEADLOCK FALSE
 """
 
@@ -112,7 +113,10 @@ def mutant_check(cases, seed, work):
     rnd = random.Random(seed)
     with_emit = [c for c in cases if c["steps"][-1]["class"] == "ok" and c["steps"][-1]["emit"]]
     with_err = [c for c in cases if c["tag"].startswith(("match", "pair")) and c["steps"][-1]["class"] == "err"]
-    cand = rnd.sample(with_emit, min(8, len(with_emit))) + rnd.sample(with_err, min(4, len(with_err)))
+    intf = [c for c in with_emit if c["tag"].startswith("intf/")]     # last emit = one position of a history
+    cand = (rnd.sample(with_emit, min(8, len(with_emit))) + rnd.sample(with_err, min(4, len(with_err)))
+            + rnd.sample(intf, min(3, len(intf))))
+    cand = list({c["id"]: c for c in cand}.values())
     if not cand:
         raise vlib.ToolError("C13 self-test: no case to mutate")
     cand = [dict(json.loads(json.dumps(c)), id=c["id"] + "-orig") for c in cand]
@@ -139,6 +143,24 @@ def mutant_check(cases, seed, work):
     return len(muts)
 
 
+def attribute_interference(cases, verdicts, work):
+    """All steps of a case run in order on one engine and one thread (replay.rs), and the cases of
+    a chunk share that engine, so an interference history is also preceded by other histories.
+    A failing interference case is re-run alone on a fresh engine and its `why` says whether the
+    history fails by itself or only after the batch prefix; it stays failing either way."""
+    idx = [i for i, (c, v) in enumerate(zip(cases, verdicts)) if not v["pass"] and c["tag"].startswith("intf/")]
+    if not idx:
+        return verdicts
+    alone = [dict(json.loads(json.dumps(cases[i])), id=cases[i]["id"] + "-alone", fresh=True) for i in idx[:200]]
+    vs = vlib.replay(alone, work, jobs=8, timeout_ms=4000, name="c13alone")
+    out = list(verdicts)
+    for i, v in zip(idx, vs):
+        o = dict(out[i])
+        o["why"] += " [alone on a fresh engine: " + ("passes" if v["pass"] else "fails too: " + v["why"]) + "]"
+        out[i] = o
+    return out
+
+
 def run(tier, seed):
     work = os.path.join(vlib.WORK, PROP)
     r = vlib.Result(PROP, tier, seed)
@@ -158,10 +180,12 @@ def run(tier, seed):
     cases = dedup(cases)
     r.notes.append(f"mutant oracles reported: {mutant_check(cases, seed, work)}")
     verdicts = vlib.replay(cases, work, jobs=12, timeout_ms=4000, name="c13")
+    verdicts = attribute_interference(cases, verdicts, work)
     r.add_cases(cases, verdicts, nontrivial=nontrivial)
     r.cov["rule"] = ("distinct rendered programs (define-syntax + use + emit probes) generated by Hygiene.tla: "
                      "library x spelling bound at the use site x binder value x context x argument x placement, "
-                     "and pattern grammar x input grammar; non-trivial = the use emits a value or is an error")
+                     "pattern grammar x input grammar, and interference histories (define A, define B, use B, use A, use B on "
+                     "one engine, shapes sharing pattern-variable spellings); non-trivial = the use emits a value or is an error")
     r.cov["exhaustive"] = True
     r.assumptions += [
         "H1: programs that bind if/let/lambda/define/quote/begin/set! are outside the domain (reserved words)",
